@@ -610,6 +610,13 @@ def interpreter_modes(ctx):
             continue
         if PROJ[proj](g) == PROJ[proj](want):
             keep.append((line, proj, want))
+    if ctx.pid == "C19":
+        # `tools.xor` with operands of different lengths: the one place where the host's byte order shows; the
+        # big-endian child below is compared with the model's big-endian reading on these
+        have = {k[0] for k in keep}
+        extra = [r for r in ctx.replayable if r[0].startswith("tools.xor ") and len(r[0].split()) == 3
+                 and len(r[0].split()[1]) != len(r[0].split()[2]) and len(r[0]) < 8000 and r[0] not in have]
+        keep += extra[:: max(1, len(extra) // 80)]
     if not keep:
         return
     # every text argument also in its other form (str <-> bytes), right after the original, in the same process
@@ -642,9 +649,12 @@ def interpreter_modes(ctx):
         env2 = dict(env); pyflags = flags; txt = text; kp = keep
         if flags == ["byteorder=big"]:
             # a host of the other byte order, simulated: sys.byteorder is what the library consults. `tools.xor` with
-            # operands of different lengths is byte-order dependent on the pinned code as well and is left out.
+            # operands of different lengths is byte-order dependent on the pinned code as well: there the expected answer
+            # is the model's big-endian reading of the same source (`xorBigEndian`, op `tools.xor_be`).
             env2["VERIF_BYTEORDER"] = "big"; pyflags = []
-            kp = [k for k in keep if not (k[0].startswith("tools.xor ") and len(k[0].split()[1]) != len(k[0].split()[2]))]
+            uneq = [k[0] for k in keep if k[0].startswith("tools.xor ") and len(k[0].split()) == 3 and len(k[0].split()[1]) != len(k[0].split()[2])]
+            be_want = dict(zip(uneq, run_model(["tools.xor_be " + ln.split(" ", 1)[1] for ln in uneq], 1))) if uneq else {}
+            kp = [(k[0], k[1], be_want.get(k[0], k[2])) for k in keep]
             txt = "\n".join(k[0] for k in kp) + "\n"
             if not kp:
                 continue
@@ -897,7 +907,7 @@ def main():
             "known_findings_reproduced": kf_lines,
             "notes": ctx.notes[:20],
         },
-        "assumptions": ["little-endian host (tools.xor uses sys.byteorder)", "nesting depth / tree height below the interpreter recursion limit",
+        "assumptions": ["tools.xor consults sys.byteorder: both readings are modelled (Gen.tools.xor / xor_bigendian), equal on equal-length operands (C19.xor_bigendian_host); the differential tie runs on this little-endian host, the big-endian reading against a child with sys.byteorder rebound", "nesting depth / tree height below the interpreter recursion limit",
                         "convert callables are total and do not mutate their arguments"] + ctx.assumptions,
         "wall_s": round(ctx.wall(), 2), "violations": nviol,
     }
